@@ -520,6 +520,10 @@ PROBES = {
     "temporary_instances": "two decorated instances created and dropped inside the traced function",
     "single_temporary_instance": "one decorated instance created inside the traced function",
     "tuple_output": "decorated callable returning a tuple of two arrays",
+    "function_in_fori_loop": "decorated block called inside a lax.fori_loop body",
+    "function_in_scan": "decorated block called inside a lax.scan body",
+    "function_in_cond": "decorated block called inside a lax.cond branch",
+    "function_in_while_loop": "decorated block called inside a lax.while_loop body",
     "domain_name_collision": "two decorated classes both named `unique`, namespaces 'a' (unique=True) and "
                              "'a.unique' (default), two instances each",
     "input_param_name_capture": "input_params={'deterministic': True}; one call forwards it, a second call of "
@@ -576,6 +580,16 @@ def _build_probe(p: Prog) -> None:
         u1, u2, s1, s2 = UniqA(2.0), UniqA(4.0), UniqB(8.0), UniqB(16.0)
         p.keep += [u1, u2, s1, s2]
         p.fn = lambda x: (u1(x), u2(x), s1(x), s2(x))
+    elif pid.startswith("function_in_"):
+        from jax import lax
+        blk = PlainD([0.5, 1.0, -2.0])
+        p.keep.append(blk)
+        p.fn = {
+            "function_in_fori_loop": lambda x: lax.fori_loop(0, 3, lambda i, v: blk(v), x),
+            "function_in_scan": lambda x: lax.scan(lambda c, _: (blk(c), None), x, None, length=2)[0],
+            "function_in_cond": lambda x: lax.cond(x[0, 0] > 0, lambda v: blk(v), lambda v: v, x),
+            "function_in_while_loop": lambda x: lax.while_loop(lambda v: v[0, 0] < -100.0, lambda v: blk(v), x),
+        }[pid]
     elif pid == "tuple_output":
         blk = TwoOutD([0.5, 1.0, -2.0])
         p.keep.append(blk)
